@@ -210,7 +210,7 @@ func vAssert(label string, c bool) {
 
 func vReach(label string)          { vReachedLbl = append(vReachedLbl, label) }
 func vKnown(id string, c bool)     {}
-func vMapOrder()                   {}
+func vMapOrder()                   { vUsesMapOrder = true }
 func vFreeze()                     {}
 func vUnfreeze()                   {}
 func vWrites() int                 { return 0 }
@@ -322,6 +322,7 @@ func vEcdsaSign(key *ecdsa.PrivateKey, digest []byte) (*big.Int, *big.Int) {
 }
 
 var vEcdsaCalls int
+var vUsesMapOrder bool
 
 // vSeedReader: a deterministic byte stream per seed
 type vSeedReader struct {
